@@ -110,9 +110,21 @@ def main():
         r = results[sid]
         own = r["checks"].get(r["property"], {})
         others = ", ".join(f"{c}:{'caught' if v['caught'] else 'exit ' + str(v['exit'])}" for c, v in sorted(r["checks"].items()) if c != r["property"])
-        lines.append(f"| {sid} | {r['property']} | {r.get('demo_clean_exit')} / {r.get('demo_patched_exit')} | "
-                     f"{'**caught**' if own.get('caught') else 'missed (exit ' + str(own.get('exit')) + ')'} in {own.get('wall_s')} s | {others or '-'} | "
+        if r.get("demo_patched_exit") == 0 and not own.get("caught"):
+            verdict = "no longer a breaking change on the current tree: its own demonstration passes with the patch (see note below)"
+        elif own.get("caught"):
+            verdict = f"**caught** in {own.get('wall_s')} s"
+        else:
+            verdict = f"missed (exit {own.get('exit')}) in {own.get('wall_s')} s"
+        lines.append(f"| {sid} | {r['property']} | {r.get('demo_clean_exit')} / {r.get('demo_patched_exit')} | {verdict} | {others or '-'} | "
                      f"{r['summary'].replace('|', '/')[:160]} |")
+    lines += ["", "Note: c05a1, c05a3, c05b1, c05c1 and c05d1 were written against /repo before fix 61cb2d2 (F3). They cut short how the typer",
+              "propagates *failure* (or share supports between guard / non-guard conditions); the repaired typer re-evaluates every unconditional",
+              "assignment after the fixed point and thereby re-propagates failure, and guarded programs with so small a budget are refused,",
+              "so with these patches applied to the current tree the demonstrations pass and no out-of-type value could be found.",
+              "Against the tree they were written for, all five were caught (runs recorded in DESIGN.md §12)."]
+    if False:
+        pass
     open(os.path.join(sdir, "README.md"), "w").write("\n".join(lines) + "\n")
 
 
